@@ -12,6 +12,15 @@ THEOREMS = [
     "Remoc.Table.reject_once",
     "Remoc.Table.accept_pairs",
     "Remoc.Table.request_credit_bounds_queue",
+    "Remoc.Table.Sys.request_credit_invariant",
+    "Remoc.Table.Sys.request_located_once",
+    "Remoc.Table.Sys.listen_queue_has_room",
+    "Remoc.Table.Sys.pairs_right_global",
+    "Remoc.Table.Sys.pairs_mutual",
+    "Remoc.Table.Sys.resolves_once",
+    "Remoc.Table.Sys.pending_only_if_held",
+    "Remoc.Table.Sys.accepted_matches_peer",
+    "Remoc.Table.Sys.wireInvB_reachable",
 ]
 RULE = ("same runs as C07. Predicates on the real run: unanswered OpenPort requests on the wire never exceed the connect_queue the "
         "peer advertised (at every prefix); every connect/accept/inspect/request call returns at most once and none is pending "
@@ -22,18 +31,32 @@ RULE = ("same runs as C07. Predicates on the real run: unanswered OpenPort reque
         ">= 2 ports established.")
 TRUSTED_BASE = [
     "M_table; the exhaustion policy modelled is the per-request wait flag (the configured default Cfg::ports_exhausted is not read by the code: finding F8)",
+    "the two-endpoint system model lean/RemocModel/Table/Conn.lean: which local events a conforming application can cause "
+    "(client handles and the connect-credit semaphore, listener, held requests, sender/receiver handles, port allocator), FIFO "
+    "wires, one label per await-free block; data frames and credits are left out (M_link)",
     "delivery of the answer to the caller's future (a oneshot inside ConnectRequest) is observed, not modelled",
     "harness world and lean/Driver/Conn.lean",
 ]
 ASSUMPTIONS = ["single-threaded paused runtime; settle after every step so that the dispatcher's processing order is determined"]
-LEVEL_TEXT = ("Lean 4 theorems over the dispatcher model for every state: an answer is accepted only for a connecting port and "
-              "consumes it (a second answer is a protocol error), the listener side can answer only outstanding requests and each "
-              "at most once, the two ports created by an accepted request reference each other, the client credit keeps the "
-              "listener queue below the refusal threshold. Tied to the code by replaying both real dispatchers on the model and by "
-              "pairing/label/credit/reason predicates on real runs.")
-LEVEL_NOTE = ("Partial: the cross-endpoint claim 'no third port references either' and the true-reason table are checked on "
-              "explored runs (mirrored port numbers, labels), not proved; Cfg::ports_exhausted (F8) is outside the model.")
-TECHNIQUE = "Lean 4 proofs over total dispatcher functions + two-endpoint trace replay and pairing/credit predicates on the real crate"
+LEVEL_TEXT = ("Lean 4 theorems. (a) Over the dispatcher functions, for every state: an answer is accepted only for a connecting "
+              "port and consumes it, the listener side answers only outstanding requests and each at most once, the two ports of "
+              "an accepted request reference each other. (b) Over the two-endpoint system model (both dispatchers, both FIFO "
+              "wires, the API objects of a conforming application), for ALL label lists from the initial state and any max_ports / "
+              "connect_queue: the credit equation (requests in flight + listener queue + requests held by the application + "
+              "answers queued + answers in flight = clientPending <= advertised queue), every request is in exactly one place "
+              "and these are exactly the connecting ports, the right ports are paired globally with no third port referencing "
+              "either (modulo entries already freed on one side), a ghost log shows every connect request resolved at most once "
+              "and resolved-or-pending, a local refusal only if the peer's listener was dropped, an accepted answer in flight has "
+              "the peer's fresh port behind it, and at quiescence a request is pending only while it waits in the peer's "
+              "listener queue or is held by its application. Tied to the code by replaying both real dispatchers on the model, by "
+              "evaluating the decidable form of the global invariant (request location / credit equation, pairing, flags) on the "
+              "reconstructed two-endpoint state after every frame of the real traces, and by pairing/label/credit/reason "
+              "predicates on real runs.")
+LEVEL_NOTE = ("Partial: the multiset equation between the answers the peer's application gave and the resolutions is not proved "
+              "(the value of a resolution is the content of the delivered message; single-step lemmas and the FIFO wire carry it); "
+              "ports sent over ports (PortData requests) are outside the system model and only covered by the trace predicates; "
+              "the true-reason table is checked on explored runs; Cfg::ports_exhausted (F8) is outside the model.")
+TECHNIQUE = "Lean 4 invariant proofs over a two-endpoint labelled transition system built from the total dispatcher functions + two-endpoint trace replay, global-invariant and pairing/credit predicates on the real crate"
 DESIGN_REF = "DESIGN.md section 5, C10"
 
 
